@@ -21,6 +21,7 @@ type ValKey struct {
 
 // Chain is a set of nodes that follow the same chain, plus every key needed to certify its blocks.
 type Chain struct {
+	MidwayRecheck   bool   // Propose also runs the mempool re-check the controller's background loop would run
 	EnvelopeChainID uint64 // if non-zero: the chain id Deliver writes into the block-message envelope
 	ChainID         uint64
 	Nodes           []*Node
@@ -217,9 +218,17 @@ type Proposal struct {
 func (ch *Chain) Propose(proposer int, txs [][]byte, evidence *bft.ByzantineEvidence) (*Proposal, lib.ErrorI) {
 	n := ch.Nodes[proposer]
 	ch.enter(n)
-	for _, tx := range txs {
+	for i, tx := range txs {
 		// one by one: a rejected transaction must not keep the others out
 		_ = n.C.Mempool.HandleTransactions(tx)
+		if ch.MidwayRecheck && i == len(txs)/2 {
+			// the controller's background loop re-checks a dirty mempool at any time: the proposal for one height is
+			// usually built more than once before it is used
+			_ = n.C.Mempool.CheckMempool()
+		}
+	}
+	if ch.MidwayRecheck {
+		_ = n.C.Mempool.CheckMempool()
 	}
 	if evidence == nil {
 		evidence = &bft.ByzantineEvidence{DSE: bft.DoubleSignEvidences{}}
